@@ -662,6 +662,20 @@ theorem gatherAll_ro (sem : Sem) (o : Oracle) (m : Manifest) : ∀ (ecos : List 
             hs2 bs' rfl (hst ▸ hi) (fun eco' he' l hl => hst ▸ hm eco' (List.mem_cons_of_mem _ he') l hl)]
         rfl
 
+theorem coalCalls_ro (sem : Sem) (o : Oracle) : ∀ (ecos : List Eco) (w : W),
+    RO o w (coalCalls sem o ecos w).1 (coalCalls sem o ecos w).2
+  | [], w => by simp only [coalCalls]; exact RO.refl w
+  | eco :: ecos, w => by
+    simp only [coalCalls]
+    split
+    · exact coalCalls_ro sem o ecos w
+    · have h1 := readCall_ro o 'C' w
+      generalize readCall o 'C' w = r1 at h1 ⊢
+      obtain ⟨w1, e1⟩ := r1
+      cases e1 with
+      | some c => exact h1
+      | none => exact h1.seq (coalCalls_ro sem o ecos w1)
+
 structure CoalesceSpec (sem : Sem) (o : Oracle) (cfg : Cfg) (m : Manifest) (w : W) (c : Ctl) (res : StateRet) : Prop where
   step : Step sem o m w res.1 res.2.2.2
   st : res.1.st = w.st
@@ -680,12 +694,20 @@ theorem coalesce_spec (sem : Sem) (o : Oracle) (cfg : Cfg) (m : Manifest) (w : W
   | error cl => exact ⟨h1.toStep, h1.st, fun _ => ⟨rfl, rfl⟩, fun h => by cases h⟩
   | ok bodies =>
     simp only [exceptErr_ok] at h1
-    refine ⟨h1.toStep, h1.st, fun h => absurd rfl h, fun _ => ⟨rfl, sem.merge bodies, rfl, ?_⟩⟩
-    intro hi hm
-    rw [hs1 bodies rfl hi ?_]
-    · rfl
-    · intro eco heco l hl s hs
-      exact hm l hl s ((mem_scanners cfg s).2 ⟨eco, heco, hs⟩)
+    simp only []
+    have h2 := coalCalls_ro sem o cfg w1
+    generalize coalCalls sem o cfg w1 = r2 at h2 ⊢
+    obtain ⟨w2, e2⟩ := r2
+    have h12 := h1.seq h2
+    cases e2 with
+    | some cl => exact ⟨h12.toStep, h12.st, fun _ => ⟨rfl, rfl⟩, fun h => by cases h⟩
+    | none =>
+      refine ⟨h12.toStep, h12.st, fun h => absurd rfl h, fun _ => ⟨rfl, sem.merge bodies, rfl, ?_⟩⟩
+      intro hi hm
+      rw [hs1 bodies rfl hi ?_]
+      · rfl
+      · intro eco heco l hl s hs
+        exact hm l hl s ((mem_scanners cfg s).2 ⟨eco, heco, hs⟩)
 
 /-! ## indexManifest, indexFinished -/
 
